@@ -112,10 +112,10 @@ CHECKS = {
         'technique': 'TLA+ reference parser (Http.tla) + TLC batch validation (TraceParse) of recorded segmented executions of the real parser',
     },
     'C09': {
-        'text': 'Design model PluginChain.tla of the plugin chain of one connection (before_upstream_connection -> connect -> '
+        'text': 'Design model PluginChain.tla of the plugin chain of one connection (before_upstream_connection -> resolve_dns -> connect -> '
                 'handle_client_request -> forward -> handle_upstream_chunk -> access-log chain -> on_upstream_connection_close) over '
                 'PROGRAMS (each plugin passes / modifies / drops / rejects per hook) x auth x endings x 3 requests; TLC checks '
-                'ChainOrder, SeenChain, DropSuppresses, RejectClean, BadAuthClean, LifecycleOnce exhaustively. tlc -simulate behaviours '
+                'ChainOrder, SeenChain, DropSuppresses, RejectClean, BadAuthClean, LifecycleOnce, DnsFirstWins exhaustively. tlc -simulate behaviours '
                 'name programs; plugin classes are synthesised from them and the REAL handler + HttpProxyPlugin execute the conversation; '
                 'the recorded hook-call log (with the modifications each hook saw), connects, forwarded requests and client output are '
                 'stepped through the same actions by TLC (TraceChain), with the design invariants evaluated on every trace state.',
